@@ -318,7 +318,7 @@ func init() {
 				}
 				if out.Div != nil {
 					rep.Divergences = append(rep.Divergences, out.Div)
-					if len(rep.Divergences) > 3 {
+					if enoughDivergences(rep, 3) {
 						rep.Distinct = len(distinct)
 						return
 					}
